@@ -219,7 +219,7 @@ func TestVerifC21(t *testing.T) {
 					}
 					cancelAt = cSome(cNat(k - 1)) // poll 1 is the check before the loop, poll i+2 is iteration i
 				}
-				coq := cTuple(repos, dcs, langs, folds, retbl, qc, cNatList(wtbl), cNat(smax), cNat(opts.ShardRepoMaxMatchCount), cancelAt,
+				coq := cTuple(repos, dcs, langs, folds, retbl, cListOr(ser.symtbl, "N * list (list bool)"), qc, cNatList(wtbl), cNat(smax), cNat(opts.ShardRepoMaxMatchCount), cancelAt,
 					cListOr(rows, "nat * list N"))
 				cls := []string{fmt.Sprintf("unlimited=%d", min(len(unl.Files), 4)), fmt.Sprintf("kept=%d", min(len(lim.Files), 4))}
 				if opts.ShardMaxMatchCount > 0 {
